@@ -585,11 +585,13 @@ theorem pres_afterPosted (s : St) (t : Tok) (l : Ledger) (src dst : Nat) (amt : 
         | some l' =>
           exact pres_fin P hP s l' d1 d2 h (f.trans (neoOnPayment_frame _ _ _ _ _ _ hn)) (g.trans (neoOnPayment_ef _ _ _ _ _ _ hn))
       · exact ⟨h.2, h.2⟩
-    · cases recv with
-      | none => exact pres_fin P hP s l d1 d2 h f g
-      | accept => exact pres_fin P hP s l d1 d2 h f g
-      | throws => exact ⟨h.2, h.2⟩
-      | cb => exact ⟨hP _ _ h.1 f g, h.2⟩
+    · split
+      · exact ⟨h.2, h.2⟩
+      · cases recv with
+        | none => exact pres_fin P hP s l d1 d2 h f g
+        | accept => exact pres_fin P hP s l d1 d2 h f g
+        | throws => exact ⟨h.2, h.2⟩
+        | cb => exact ⟨hP _ _ h.1 f g, h.2⟩
 
 theorem exec_pres {nt : Nat} (s : St) (op : Op) (hm : MInv nt s) (hop : op.inner = true) (h : P s.cur ∧ P s.snap) :
     P (exec s op).cur ∧ P (exec s op).snap := by
@@ -668,7 +670,7 @@ theorem exec_pres {nt : Nat} (s : St) (op : Op) (hm : MInv nt s) (hop : op.inner
             | none => exact ⟨h.2, h.2⟩
             | some l' =>
               exact pres_done P hP s l' .t h (fv.trans (mintGasCb_frame _ _ _ _ _ hmg)) (ev.trans (mintGasCb_ef _ _ _ _ _ hmg))
-  | register pub =>
+  | register pub caller =>
     simp only [exec]
     split
     · exact h
@@ -745,7 +747,9 @@ theorem step_pres {nt : Nat} (s : St) (op : Op) (hm : MInv nt s) (hop : op.inner
     · exact h
     · exact h
     · exact h
-  · exact exec_pres P hP s op hm hop h
+  · split
+    · exact ⟨h.2, h.2⟩
+    · exact exec_pres P hP s op hm hop h
 
 theorem run_pres {nt : Nat} (s : St) (ops : List Op) (hm : MInv nt s) (hop : ∀ op ∈ ops, op.inner = true)
     (h : P s.cur ∧ P s.snap) : P (run s ops).cur ∧ P (run s ops).snap := by
@@ -789,7 +793,9 @@ theorem step_panicked (s : St) (op : Op) (h : s.panicked = true) : (step s op).p
   unfold step
   split
   · split <;> exact h
-  · cases op <;> simp only [exec, St.throw, St.done, afterPosted] <;> (repeat' split) <;> first | exact h | rfl
+  · split
+    · exact h
+    · cases op <;> simp only [exec, St.throw, St.done, afterPosted] <;> (repeat' split) <;> first | exact h | rfl
 
 theorem run_panicked (s : St) (ops : List Op) (h : s.panicked = true) : (run s ops).panicked = true := by
   induction ops generalizing s with
@@ -800,7 +806,9 @@ theorem step_cfg (e0 : Env) (s : St) (op : Op) (h : sameCfg e0 s.env) : sameCfg 
   unfold step
   split
   · split <;> exact h
-  · cases op <;> simp only [exec, St.throw, St.done, afterPosted] <;> (repeat' split) <;> exact h
+  · split
+    · exact h
+    · cases op <;> simp only [exec, St.throw, St.done, afterPosted] <;> (repeat' split) <;> exact h
 
 theorem run_cfg (e0 : Env) (s : St) (ops : List Op) (h : sameCfg e0 s.env) : sameCfg e0 (run s ops).env := by
   induction ops generalizing s with
@@ -811,7 +819,9 @@ theorem step_index (s : St) (op : Op) (hop : op.inner = true) : (step s op).env.
   unfold step
   split
   · split <;> rfl
-  · cases op <;> simp only [exec, St.throw, St.done, afterPosted] <;> (repeat' split) <;> first | rfl | (simp [Op.inner] at hop)
+  · split
+    · rfl
+    · cases op <;> simp only [exec, St.throw, St.done, afterPosted] <;> (repeat' split) <;> first | rfl | (simp [Op.inner] at hop)
 
 theorem run_index (s : St) (ops : List Op) (hop : ∀ op ∈ ops, op.inner = true) : (run s ops).env.index = s.env.index := by
   induction ops generalizing s with
@@ -826,8 +836,7 @@ theorem block_bnd (e0 : Env) (s : St) (hb : Bnd e0 s) :
     (e0.csize ≠ 0 → (s.env.index + 1) % e0.csize = 0 →
       s'.cur.committee = s.cur.neCommittee ∧ s'.cur.nextVals = s.cur.neVals ∧
       computeCommittee e0 s.cur = some s'.cur.committee ∧ valsOf e0 s'.cur.committee = some s'.cur.nextVals) := by
-  have hstep : step s (.block (s.env.index + 1)) = exec s (.block (s.env.index + 1)) := by
-    unfold step; simp [Op.isCall]
+  have hstep : step s (.block (s.env.index + 1)) = exec s (.block (s.env.index + 1)) := step_eq_exec _ _ rfl
   simp only [hstep, exec]
   obtain ⟨c1, c2, c3, c4, c5⟩ := hb.cfg
   refine ⟨⟨c1, c2, c3, c4, c5⟩, trivial, ?_⟩
@@ -855,8 +864,7 @@ theorem block_bnd (e0 : Env) (s : St) (hb : Bnd e0 s) :
 theorem postPersist_bnd (e0 : Env) (s : St) (hcfg : sameCfg e0 s.env) (hcoh : Coh e0 s.cur)
     (hA : ∀ k, acctOf e0 k ≠ e0.notary) (hnp : (step s .postPersist).panicked = false) :
     Bnd e0 (step s .postPersist) := by
-  have hstep : step s .postPersist = exec s .postPersist := by
-    unfold step; simp [Op.isCall]
+  have hstep : step s .postPersist = exec s .postPersist := step_eq_exec _ _ rfl
   rw [hstep] at hnp ⊢
   obtain ⟨c1, c2, c3, c4, c5⟩ := hcfg
   have hacct : ∀ k, acctOf s.env k = acctOf e0 k := fun k => by unfold acctOf; rw [c4]
@@ -905,7 +913,7 @@ theorem run_append (s : St) (a b : List Op) : run s (a ++ b) = run (run s a) b :
   unfold run; rw [List.foldl_append]
 
 theorem postPersist_index (s : St) : (step s .postPersist).env.index = s.env.index := by
-  have hstep : step s .postPersist = exec s .postPersist := by unfold step; simp [Op.isCall]
+  have hstep : step s .postPersist = exec s .postPersist := step_eq_exec _ _ rfl
   rw [hstep]; simp only [exec]; (repeat' split) <;> rfl
 
 /-- one whole block takes a boundary state to a boundary state. -/
